@@ -82,7 +82,7 @@ func runC03(c *Ctx) {
 		}
 		c.Eval(true, "corpus")
 	})
-	c.Cases("batch", c.N(1500, 30000), func(r *Rng, i int) {
+	c.Cases("batch", c.N(1500, 12000), func(r *Rng, i int) {
 		F := []int{300, 1000, 4096, 33554432}[r.Intn(4)]
 		P := []int{2, 3, 8, 256, 256}[r.Intn(5)]
 		limits.Frag, limits.Packets = F, P
